@@ -182,6 +182,17 @@ def assign_limit(c):
     c.ensures("completed-assign-keeps-measured-size-within-limit", lambda r: z3.Implies(limited, r.value.items[1].t <= U.i(M)))
     c.raises("LocalNamespaceLimitError")
     c.ensures_exc("raises-only-when-limited", lambda r: limited)
+    # In lax and warn mode the render goes on after the error, so "a completed render never
+    # held more than M" needs the refused assignment to leave the namespace as it was (which
+    # was within the limit by the clause above, inductively).
+    loc0 = c.st.deref(c.st.deref(ctx).fields["locals"])
+    pres0, val0 = loc0.present, loc0.val
+
+    def unchanged(r):
+        h = r.st.deref(r.st.deref(ctx).fields["locals"])
+        j = z3.Const("j!key", U)
+        return z3.And(z3.BoolVal(not h.items), h.present == pres0, z3.ForAll([j], z3.Implies(z3.Select(pres0, j), z3.Select(h.val, j) == z3.Select(val0, j))))
+    c.ensures_exc("refused-assignment-leaves-the-namespace-as-it-was", unchanged)
     c.replay("code", code=REPLAY_NAMESPACE)
 
 
@@ -285,5 +296,12 @@ def run(m):
             ok = lim < need
         if not ok and bad is None:
             bad = (lim, need)
+    # lax mode: the render completes; at no point may it hold more than the limit
+    from liquid import Mode
+    class L(Environment):
+        local_namespace_limit = sizes[1] + 10
+    held = L(tolerance=Mode.LAX, loader=loader).from_string("{% assign a = 'xxxxxxxxxxxxxxxxxxxxxxxxxxxxxxxxxxxxxxxx' %}{% assign b = 'yy' %}[{{ a }}]").render()
+    if held != "[]" and bad is None:
+        bad = ("lax mode holds a refused value", held)
     return {"failing": bad is not None, "witness": "namespace-limit", "call": repr(bad) if bad else "limit sweep", "result": "ok" if bad is None else "limit not honoured"}
 '''
